@@ -4,7 +4,7 @@ let rec pos_of_int (n : int) : positive =
 let z_of_int (n : int) : z = if n = 0 then Z0 else if n > 0 then Zpos (pos_of_int n) else Zneg (pos_of_int (- n))
 let rec int_of_pos (p : positive) : int = match p with XH -> 1 | XO q -> 2 * int_of_pos q | XI q -> 2 * int_of_pos q + 1
 let int_of_z (x : z) : int = match x with Z0 -> 0 | Zpos p -> int_of_pos p | Zneg p -> - (int_of_pos p)
-let rec nat_of_int (n : int) : nat = if n <= 0 then O else S (nat_of_int (n - 1))
+let nat_of_int (n : int) : nat = let rec go acc n = if n <= 0 then acc else go (S acc) (n - 1) in go O n
 let int_of_nat (n : nat) : int = let rec go a = function O -> a | S m -> go (a + 1) m in go 0 n
 let zs (x : z) : string = string_of_int (int_of_z x)
 let words (l : string) : string list = List.filter (fun s -> s <> "") (String.split_on_char ' ' l)
